@@ -105,6 +105,8 @@ type Rec struct {
 	U16 map[string]uint16
 	I32 map[string]int32
 	IP  map[string]net.IP
+	// Omit leaves elements out of the record altogether (a narrower template layout).
+	Omit map[string]bool
 }
 
 func ie(name string, ent uint32) *entities.InfoElement {
@@ -186,6 +188,15 @@ func (r Rec) Elements() []entities.InfoElementWithValue {
 		entities.NewStringInfoElement(ie("tcpState", Antrea), r.TCPState),
 		entities.NewUnsigned8InfoElement(ie("flowType", Antrea), r.FlowType),
 	)
+	if len(r.Omit) > 0 {
+		kept := el[:0:0]
+		for _, e := range el {
+			if !r.Omit[e.GetName()] {
+				kept = append(kept, e)
+			}
+		}
+		el = kept
+	}
 	return el
 }
 
